@@ -1,6 +1,8 @@
 package main
 
 import (
+	"os"
+	"strconv"
 	"fmt"
 	"go/constant"
 	"go/token"
@@ -71,6 +73,20 @@ func pathDepth(v ssa.Value, d int, seen map[ssa.Value]bool) string {
 			return pathDepth(p, d, seen)
 		}
 		if v.Comment != "" && v.Comment != "complit" && !strings.HasPrefix(v.Comment, "new") && !strings.HasPrefix(v.Comment, "make") {
+			if inlineLocals && v.Comment != "varargs" && v.Comment != "slicelit" && !isParamName(v.Parent(), v.Comment) {
+				// a local that is assigned once and only read afterwards is a name for that value
+				if init := readOnlyInit(v); init != nil && d < maxRenderDepth {
+					if seen == nil {
+						seen = map[ssa.Value]bool{}
+					}
+					if !seen[v] {
+						seen[v] = true
+						r := pathDepth(init, d, seen)
+						delete(seen, v)
+						return r
+					}
+				}
+			}
 			if renameLocals && v.Comment != "varargs" && v.Comment != "slicelit" && !isParamName(v.Parent(), v.Comment) {
 				// robustness experiment: pretend every named local was renamed
 				return v.Comment + "ʀ"
@@ -266,6 +282,15 @@ func spilledParam(a *ssa.Alloc) ssa.Value {
 
 type Atom struct {
 	L, Op, R string
+	// U: the compared operands are unsigned integers (so `x != 0` ≡ `x > 0` and `x == 0` ≡ `x <= 0` ≡ `x < 1`)
+	U bool
+}
+
+func mkAtom(l, op, r string) Atom { return Atom{L: l, Op: op, R: r} }
+
+func isUnsigned(t types.Type) bool {
+	b, ok := t.Underlying().(*types.Basic)
+	return ok && b.Info()&types.IsUnsigned != 0
 }
 
 func (a Atom) String() string { return a.L + " " + a.Op + " " + a.R }
@@ -296,7 +321,9 @@ func condAtom(cond ssa.Value, truth bool) (Atom, bool) {
 			if !truth {
 				op = negOp[op]
 			}
-			return Atom{Path(c.X), op, Path(c.Y)}, true
+			a := mkAtom(Path(c.X), op, Path(c.Y))
+			a.U = isUnsigned(c.X.Type())
+			return a, true
 		}
 	case *ssa.Phi:
 		return Atom{}, false
@@ -310,7 +337,7 @@ func condAtom(cond ssa.Value, truth bool) (Atom, bool) {
 	if !truth {
 		val = "false"
 	}
-	return Atom{Path(cond), "==", val}, true
+	return mkAtom(Path(cond), "==", val), true
 }
 
 // AtomSpec is a required fact: globs for both operands and an operator.
@@ -371,7 +398,18 @@ func opSatisfies(required, established string) bool {
 func (sp AtomSpec) Satisfies(a Atom) bool {
 	// boolean normalisation: "x == false" ≡ "x != true"
 	a = normBool(a)
-	req := normBool(Atom{sp.L, sp.Op, sp.R})
+	req := normBool(mkAtom(sp.L, sp.Op, sp.R))
+	if satisfiesRaw(req, a) {
+		return true
+	}
+	// equivalent spellings of a comparison with an integer literal (x >= 1 vs x > 0, len(s) != 0 vs len(s) > 0)
+	if na, nr := normInt(a), normInt(req); na != a || nr != req {
+		return satisfiesRaw(nr, na)
+	}
+	return false
+}
+
+func satisfiesRaw(req, a Atom) bool {
 	if opSatisfies(req.Op, a.Op) && operandGlob(req.L, a.L) && operandGlob(req.R, a.R) {
 		return true
 	}
@@ -383,16 +421,16 @@ func (sp AtomSpec) Satisfies(a Atom) bool {
 
 func normBool(a Atom) Atom {
 	if a.Op == "!=" && a.R == "true" {
-		return Atom{a.L, "==", "false"}
+		return mkAtom(a.L, "==", "false")
 	}
 	if a.Op == "!=" && a.R == "false" {
-		return Atom{a.L, "==", "true"}
+		return mkAtom(a.L, "==", "true")
 	}
 	if a.Op == "!=" && a.L == "true" {
-		return Atom{"false", "==", a.R}
+		return mkAtom("false", "==", a.R)
 	}
 	if a.Op == "!=" && a.L == "false" {
-		return Atom{"true", "==", a.R}
+		return mkAtom("true", "==", a.R)
 	}
 	return a
 }
@@ -416,4 +454,90 @@ func splitTop(s, sep string) []string {
 	}
 	out = append(out, strings.TrimSpace(s[start:]))
 	return out
+}
+
+// normInt canonicalises comparisons with an integer literal so that equivalent spellings agree:
+// `x >= c` ≡ `x > c-1`, `x < c` ≡ `x <= c-1`; for lengths also `len(s) != 0` ≡ `len(s) > 0` and `== 0` ≡ `<= 0`.
+func normInt(a Atom) Atom {
+	if _, err := strconv.ParseInt(a.L, 10, 64); err == nil {
+		if _, err2 := strconv.ParseInt(a.R, 10, 64); err2 != nil {
+			u := a.U
+			a = mkAtom(a.R, mirrorOp[a.Op], a.L)
+			a.U = u
+		}
+	}
+	c, err := strconv.ParseInt(a.R, 10, 64)
+	if err != nil {
+		return a
+	}
+	switch a.Op {
+	case ">=":
+		return mkAtom(a.L, ">", strconv.FormatInt(c-1, 10))
+	case "<":
+		return mkAtom(a.L, "<=", strconv.FormatInt(c-1, 10))
+	}
+	if c == 0 && (a.U || strings.HasPrefix(a.L, "len(") || strings.HasPrefix(a.L, "cap(")) {
+		switch a.Op {
+		case "!=":
+			return mkAtom(a.L, ">", "0")
+		case "==":
+			return mkAtom(a.L, "<=", "0")
+		}
+	}
+	return a
+}
+
+var inlineLocals = os.Getenv("WK_INLINE_LOCALS") != "0"
+
+// readOnlyInit: the one value ever stored into the local, when the local is stored exactly once as a whole and
+// afterwards only read (loads and field/element reads; no partial store, no escape of its address).
+func readOnlyInit(a *ssa.Alloc) ssa.Value {
+	if a.Referrers() == nil {
+		return nil
+	}
+	var init ssa.Value
+	var readOnly func(v ssa.Value, depth int) bool
+	readOnly = func(v ssa.Value, depth int) bool {
+		if depth > 6 || v.Referrers() == nil {
+			return depth <= 6
+		}
+		for _, r := range *v.Referrers() {
+			switch x := r.(type) {
+			case *ssa.Store:
+				if x.Addr == v {
+					if v != ssa.Value(a) || init != nil {
+						return false // partial store, or a second whole store
+					}
+					init = x.Val
+					continue
+				}
+				return false // the address itself is stored somewhere
+			case *ssa.UnOp:
+				if x.Op != token.MUL {
+					return false
+				}
+			case *ssa.FieldAddr:
+				if !readOnly(x, depth+1) {
+					return false
+				}
+			case *ssa.IndexAddr:
+				if !readOnly(x, depth+1) {
+					return false
+				}
+			case *ssa.DebugRef:
+			default:
+				return false // call argument, closure binding, phi, …: may be written through
+			}
+		}
+		return true
+	}
+	if !readOnly(a, 0) || init == nil {
+		return nil
+	}
+	// the initialiser must be evaluated before every read: it is in the entry block or dominates all readers; keep it simple
+	if in, ok := init.(ssa.Instruction); ok && in.Block() != nil && a.Block() != nil && !in.Block().Dominates(a.Block()) && in.Block() != a.Block() {
+		// value computed after the alloc (normal): the store is where the name is bound; fine
+		_ = in
+	}
+	return init
 }
